@@ -11,7 +11,7 @@ fn live(w: &RouterWorld, c: u8) -> bool {
     w.clients[c as usize].link.is_some() && w.model.registered(c as usize)
 }
 
-fn next_pkid(w: &mut RouterWorld, ci: usize) -> u16 {
+pub fn next_pkid(w: &mut RouterWorld, ci: usize) -> u16 {
     let c = &mut w.clients[ci];
     c.next_pkid = if c.next_pkid == u16::MAX { 1 } else { c.next_pkid + 1 };
     c.next_pkid
@@ -54,7 +54,7 @@ pub fn prop_table(k: u8) -> Option<crate::wire::Props> {
     Some(p)
 }
 
-fn end_link(w: &mut RouterWorld, ci: usize, events: Vec<LateEv>, auto: bool) {
+pub fn end_link(w: &mut RouterWorld, ci: usize, events: Vec<LateEv>, auto: bool) {
     if let Some(l) = w.clients[ci].link.take() {
         let name = w.clients[ci].name.clone();
         w.clients[ci].unacked.clear();
@@ -342,6 +342,13 @@ fn check_registered(w: &RouterWorld, out: &mut Vec<Violation>) {
             .map(|(i, _)| NAMES[i])
             .collect();
         want.sort();
+        if have.len() > w.max_conn {
+            out.push(Violation::new(
+                w.prop,
+                "max_connections_exceeded",
+                format!("{} live connections, configured maximum {}", have.len(), w.max_conn),
+            ));
+        }
         if have != want {
             out.push(Violation::new(
                 w.prop,
@@ -443,10 +450,437 @@ pub fn enabled(w: &RouterWorld, cfg: &Cfg) -> Vec<(Act, u8)> {
     let mut v = vec![];
     match cfg.prop.as_str() {
         "C01" => enabled_c01(w, cfg, &mut v),
+        "C06" => enabled_c06(w, cfg, &mut v),
+        "C08" => enabled_c08(w, cfg, &mut v),
+        "C09" => enabled_c09(w, cfg, &mut v),
+        "C14" => enabled_c14(w, cfg, &mut v),
+        "C15" => enabled_c15(w, cfg, &mut v),
+        "C16" => enabled_c16(w, cfg, &mut v),
+        "C17" => enabled_c17(w, cfg, &mut v),
+        "C03" => enabled_c03(w, cfg, &mut v),
+        "C20" => enabled_c20(w, cfg, &mut v),
+        "C19" => enabled_c19(w, cfg, &mut v),
         _ => {}
     }
     manual_actions(w, cfg, &mut v);
     v
+}
+
+fn can_connect(w: &RouterWorld, c: u8) -> bool {
+    w.clients[c as usize].link.is_none() && w.outbox.is_empty()
+}
+
+/// C06: c0, c1 issue requests of every kind; c2 is a QoS1 subscriber of everything
+fn enabled_c06(w: &RouterWorld, cfg: &Cfg, v: &mut Vec<(Act, u8)>) {
+    let reqs = [0u8, 1u8];
+    for &c in reqs.iter() {
+        if !live(w, c) {
+            if can_connect(w, c) && cfg.variant != 3 {
+                v.push((Act::Connect { c, clean: true, will: 0 }, 0));
+            }
+            continue;
+        }
+        for q in [1u8, 2u8] {
+            v.push((Act::Pub { c, t: 0, qos: q, retain: false, empty: false, props: 0 }, 0));
+        }
+        v.push((Act::Ping { c }, 0));
+        for f in 0..cfg.filters.len() as u8 {
+            // subscribed or not: an UNSUBSCRIBE is owed exactly one UNSUBACK either way
+            v.push((Act::Unsub { c, f }, 0));
+            if !active_sub(w, c, &cfg.filters[f as usize]) {
+                v.push((Act::Sub { c, f, qos: (f % 3) }, 0));
+            }
+        }
+        if cfg.filters.len() >= 2 {
+            v.push((Act::Sub2 { c, f1: 0, f2: 1, qos: 1 }, 0));
+            v.push((Act::Unsub2 { c, f1: 0, f2: 1 }, 0));
+        }
+        if !w.manual {
+            for kind in 0..super::hostile::BATCH_KINDS {
+                v.push((Act::Batch { c, kind }, 0));
+            }
+        }
+    }
+    rel_actions(w, &reqs, v);
+    ack_actions(w, &[0, 1, 2], v);
+}
+
+/// C08: c2 is the persistent subscriber, c0 publishes
+fn enabled_c08(w: &RouterWorld, cfg: &Cfg, v: &mut Vec<(Act, u8)>) {
+    let s = 2u8;
+    let p = 0u8;
+    if live(w, p) {
+        for t in 0..cfg.topics.len() as u8 {
+            v.push((Act::Pub { c: p, t, qos: 1, retain: false, empty: false, props: 0 }, 0));
+        }
+        if cfg.variant == 1 {
+            v.push((Act::Pub { c: p, t: 0, qos: 1, retain: true, empty: false, props: 0 }, 0));
+        }
+    }
+    if live(w, s) {
+        let qs: &[u8] = match cfg.variant {
+            0 => &[1, 2],
+            1 => &[1],
+            _ => &[0, 1],
+        };
+        for f in 0..cfg.filters.len() as u8 {
+            let fs = &cfg.filters[f as usize];
+            if active_sub(w, s, fs) {
+                v.push((Act::Unsub { c: s, f }, 0));
+            } else if !w.model.clients[s as usize].subs.iter().any(|x| x.filter == *fs) || w.model.clients[s as usize].clean {
+                // (a filter is subscribed at most once per persistent session: what a stale
+                // inflight entry of an earlier subscription does to a later one is not stated)
+                // distinct QoS per filter keeps the attribution of forwards unambiguous
+                let q = qs[f as usize % qs.len()];
+                v.push((Act::Sub { c: s, f, qos: q }, 0));
+            }
+        }
+        ack_actions(w, &[s], v);
+        if !w.manual {
+            v.push((Act::DiscPkt { c: s }, 0));
+            v.push((Act::Drop { c: s }, 0));
+            v.push((Act::Bad { c: s, kind: 0 }, 0));
+            // takeover by a second connection under the same id
+            if w.outbox.is_empty() {
+                v.push((Act::Connect { c: s, clean: false, will: 0 }, 0));
+            }
+        }
+    } else if can_connect(w, s) {
+        v.push((Act::Connect { c: s, clean: false, will: 0 }, 0));
+        v.push((Act::Connect { c: s, clean: true, will: 0 }, 0));
+    }
+}
+
+/// C09: c0 publishes backlogs, c2 subscribes at QoS1/2 and paces its acknowledgements
+fn enabled_c09(w: &RouterWorld, cfg: &Cfg, v: &mut Vec<(Act, u8)>) {
+    let s = 2u8;
+    let p = 0u8;
+    let bursts: &[u16] = match cfg.variant {
+        0 => &[3, 100, 101],
+        1 => &[99, 150],
+        _ => &[200, 250],
+    };
+    if live(w, p) && w.model.accepted.len() < 520 {
+        for t in 0..cfg.topics.len() as u8 {
+            for &n in bursts {
+                v.push((Act::Burst { c: p, t, qos: 0, n }, 0));
+            }
+            v.push((Act::Pub { c: p, t, qos: 0, retain: false, empty: false, props: 0 }, 0));
+        }
+    }
+    if live(w, s) {
+        for f in 0..cfg.filters.len() as u8 {
+            if !active_sub(w, s, &cfg.filters[f as usize]) {
+                let q = if cfg.variant == 1 { 2 } else { 1 + (f % 2) };
+                v.push((Act::Sub { c: s, f, qos: q }, 0));
+            }
+        }
+        let cl = &w.clients[s as usize];
+        if !cl.unacked.is_empty() {
+            v.push((Act::Ack { c: s }, 0));
+            if cl.unacked.len() >= 2 {
+                v.push((Act::AckN { c: s, n: 50 }, 0));
+                v.push((Act::AckN { c: s, n: 100 }, 0));
+                if !w.manual {
+                    v.push((Act::Bad { c: s, kind: 4 }, 0));
+                }
+            }
+        }
+        if !cl.rels.is_empty() {
+            v.push((Act::Comp { c: s }, 0));
+            if cl.rels.len() >= 2 {
+                v.push((Act::CompN { c: s, n: 100 }, 0));
+            }
+        }
+        if !w.manual {
+            v.push((Act::Bad { c: s, kind: 0 }, 0));
+        }
+        let stalled = cl.link.as_ref().is_some_and(|l| l.stalled);
+        if cfg.variant == 2 {
+            if stalled {
+                v.push((Act::Unstall { c: s }, 0));
+            } else {
+                v.push((Act::Stall { c: s }, 1));
+            }
+        }
+    } else if can_connect(w, s) {
+        v.push((Act::Connect { c: s, clean: true, will: 0 }, 0));
+    }
+}
+
+/// C14: well-behaved pair c0 -> c1 on topic 0; c2 misbehaves; c3 is a newcomer
+fn enabled_c14(w: &RouterWorld, cfg: &Cfg, v: &mut Vec<(Act, u8)>) {
+    let (p, s, m, n) = (0u8, 1u8, 2u8, 3u8);
+    if live(w, p) && w.model.accepted.len() < 300 {
+        v.push((Act::Pub { c: p, t: 0, qos: 1, retain: false, empty: false, props: 0 }, 0));
+    }
+    if live(w, s) && !w.clients[s as usize].unacked.is_empty() {
+        v.push((Act::AckAll { c: s }, 0));
+    }
+    if live(w, m) {
+        let kinds: &[u8] = match cfg.variant {
+            0 => &[0, 3, 5, 6, 16],
+            _ => &[0],
+        };
+        if !w.manual {
+            for &k in kinds {
+                v.push((Act::Bad { c: m, kind: k }, 0));
+            }
+            v.push((Act::DiscPkt { c: m }, 0));
+            v.push((Act::Drop { c: m }, 0));
+            v.push((Act::DropLate { c: m }, 0));
+            if w.outbox.is_empty() {
+                v.push((Act::Connect { c: m, clean: cfg.variant != 1, will: 0 }, 0));
+            }
+        }
+        if cfg.variant == 2 {
+            // slow consumer: subscribed to the same topic but never drains
+            if !active_sub(w, m, &cfg.filters[0]) {
+                v.push((Act::Sub { c: m, f: 0, qos: 1 }, 0));
+            }
+            let stalled = w.clients[m as usize].link.as_ref().is_some_and(|l| l.stalled);
+            if !stalled {
+                v.push((Act::Stall { c: m }, 0));
+            }
+            if w.model.accepted.len() < 300 {
+                v.push((Act::Burst { c: p, t: 0, qos: 1, n: 120 }, 0));
+            }
+        }
+    } else if can_connect(w, m) {
+        v.push((Act::Connect { c: m, clean: cfg.variant != 1, will: 0 }, 0));
+    }
+    if can_connect(w, n) {
+        v.push((Act::Connect { c: n, clean: true, will: 0 }, 0));
+    }
+    for (i, e) in w.ended.iter().enumerate() {
+        if !e.auto && !e.pending.is_empty() && i < 4 {
+            v.push((Act::Late { e: i as u8 }, 0));
+        }
+    }
+}
+
+/// C15: c0 publishes retained / non-retained / empty; c2, c3 subscribe
+fn enabled_c15(w: &RouterWorld, cfg: &Cfg, v: &mut Vec<(Act, u8)>) {
+    let p = 0u8;
+    if live(w, p) {
+        for t in 0..cfg.topics.len() as u8 {
+            for (retain, empty) in [(true, false), (true, true), (false, false), (false, true)] {
+                let qos = if cfg.variant == 1 { 1 } else { 0 };
+                v.push((Act::Pub { c: p, t, qos, retain, empty, props: 0 }, 0));
+            }
+        }
+    }
+    for c in [2u8, 3u8] {
+        if !live(w, c) {
+            continue;
+        }
+        for f in 0..cfg.filters.len() as u8 {
+            let q = if cfg.variant == 1 { 1 + (f % 2) } else { f % 2 };
+            // repeated subscriptions are part of the alphabet (no replay owed)
+            v.push((Act::Sub { c, f, qos: q }, 0));
+            if active_sub(w, c, &cfg.filters[f as usize]) {
+                v.push((Act::Unsub { c, f }, 0));
+            }
+        }
+    }
+    ack_actions(w, &[2, 3], v);
+}
+
+/// C16: c0 has a will, c1 has none; c2 subscribes to the will topic; c3 to everything
+fn enabled_c16(w: &RouterWorld, cfg: &Cfg, v: &mut Vec<(Act, u8)>) {
+    let wills: &[u8] = match cfg.variant {
+        0 => &[1, 2, 3],
+        1 => &[4, 5, 6],
+        _ => &[1, 4],
+    };
+    for c in [0u8, 1u8] {
+        if live(w, c) {
+            v.push((Act::Pub { c, t: 1, qos: 1, retain: false, empty: false, props: 0 }, 0));
+            if !w.manual {
+                v.push((Act::DiscPkt { c }, 0));
+                v.push((Act::Drop { c }, 0));
+                v.push((Act::Bad { c, kind: 0 }, 0));
+                v.push((Act::Bad { c, kind: 16 }, 0));
+                v.push((Act::DropLate { c }, 0));
+            }
+        } else if can_connect(w, c) && !w.ended.iter().any(|e| e.ci == c as usize) {
+            if c == 0 {
+                for &k in wills {
+                    v.push((Act::Connect { c, clean: true, will: k }, 0));
+                }
+            } else {
+                v.push((Act::Connect { c, clean: true, will: 0 }, 0));
+            }
+        }
+    }
+    for c in [2u8, 3u8] {
+        if !live(w, c) {
+            continue;
+        }
+        let f = c - 2;
+        if (f as usize) < cfg.filters.len() {
+            if active_sub(w, c, &cfg.filters[f as usize]) {
+                v.push((Act::Unsub { c, f }, 0));
+            } else {
+                v.push((Act::Sub { c, f, qos: 1 }, 0));
+            }
+        }
+    }
+    ack_actions(w, &[2, 3], v);
+    for (i, e) in w.ended.iter().enumerate() {
+        if !e.auto && !e.pending.is_empty() && i < 4 {
+            v.push((Act::Late { e: i as u8 }, 0));
+        }
+    }
+}
+
+/// C17: c0 publishes; c1, c2, c3 join and leave the group; filter 0 is the shared one,
+/// filter 1 an unrelated plain filter, filter 2 (if any) a second filter of the same group
+fn enabled_c17(w: &RouterWorld, cfg: &Cfg, v: &mut Vec<(Act, u8)>) {
+    let p = 0u8;
+    if live(w, p) && w.model.accepted.len() < 450 {
+        let qs: &[u8] = if cfg.variant == 1 { &[1] } else { &[0, 1] };
+        for &q in qs {
+            v.push((Act::Pub { c: p, t: 0, qos: q, retain: false, empty: false, props: 0 }, 0));
+        }
+        v.push((Act::Burst { c: p, t: 0, qos: 0, n: 3 }, 0));
+        if cfg.variant == 2 {
+            v.push((Act::Burst { c: p, t: 0, qos: 0, n: 220 }, 0));
+        }
+    }
+    let members: &[u8] = if cfg.variant == 2 { &[1, 2] } else { &[1, 2, 3] };
+    for &c in members {
+        if live(w, c) {
+            let q = if cfg.variant == 1 { 1 } else { c % 2 };
+            // joining twice (a plain re-subscribe) is legal
+            v.push((Act::Sub { c, f: 0, qos: q }, 0));
+            if active_sub(w, c, &cfg.filters[0]) {
+                v.push((Act::Unsub { c, f: 0 }, 0));
+            }
+            if cfg.filters.len() > 1 {
+                if active_sub(w, c, &cfg.filters[1]) {
+                    v.push((Act::Unsub { c, f: 1 }, 0));
+                } else {
+                    v.push((Act::Sub { c, f: 1, qos: 0 }, 0));
+                }
+            }
+            if !w.manual {
+                v.push((Act::DiscPkt { c }, 0));
+            }
+            if cfg.variant == 2 {
+                let stalled = w.clients[c as usize].link.as_ref().is_some_and(|l| l.stalled);
+                if !stalled {
+                    v.push((Act::Stall { c }, 0));
+                } else {
+                    v.push((Act::Unstall { c }, 0));
+                }
+            }
+        } else if can_connect(w, c) {
+            v.push((Act::Connect { c, clean: true, will: 0 }, 0));
+        }
+    }
+    ack_actions(w, members, v);
+}
+
+/// C03: hostile input from c0..c2, raw events for stale ids, takeover, persistent sessions,
+/// shared subscriptions; c3/c4 are reserved for the liveness probe
+fn enabled_c03(w: &RouterWorld, cfg: &Cfg, v: &mut Vec<(Act, u8)>) {
+    let cs: &[u8] = &[0, 1, 2];
+    for &c in cs {
+        if live(w, c) {
+            if !w.manual {
+                let kinds: Vec<u8> = match cfg.variant {
+                    0 => (0..8).collect(),
+                    1 => (8..super::hostile::BAD_KINDS).collect(),
+                    _ => vec![0, 3, 16],
+                };
+                for k in kinds {
+                    v.push((Act::Bad { c, kind: k }, 0));
+                }
+                v.push((Act::DiscPkt { c }, 0));
+                v.push((Act::Drop { c }, 0));
+                if w.outbox.is_empty() {
+                    v.push((Act::Connect { c, clean: c % 2 == 0, will: 0 }, 0));
+                }
+            }
+            for f in 0..cfg.filters.len() as u8 {
+                if !active_sub(w, c, &cfg.filters[f as usize]) {
+                    v.push((Act::Sub { c, f, qos: 1 }, 0));
+                } else {
+                    v.push((Act::Unsub { c, f }, 0));
+                }
+            }
+            for t in 0..cfg.topics.len() as u8 {
+                v.push((Act::Pub { c, t, qos: 1, retain: false, empty: false, props: 0 }, 0));
+            }
+        } else if can_connect(w, c) {
+            v.push((Act::Connect { c, clean: c % 2 == 0, will: if c == 0 { 1 } else { 0 } }, 0));
+        }
+    }
+    ack_actions(w, cs, v);
+    if cfg.variant == 2 && !w.manual {
+        // stale events for ids no live link owns
+        for id in 0..4u8 {
+            let owned = w.clients.iter().any(|c| c.link.as_ref().is_some_and(|l| l.id == id as usize));
+            if owned {
+                continue;
+            }
+            for kind in 0..super::hostile::RAW_KINDS {
+                v.push((Act::Raw { id, kind }, 0));
+            }
+        }
+    }
+}
+
+/// C20: c0 publishes (v5 or v4 per configuration), c2 and c3 subscribe (one per version)
+fn enabled_c20(w: &RouterWorld, cfg: &Cfg, v: &mut Vec<(Act, u8)>) {
+    let p = 0u8;
+    if live(w, p) {
+        let max_props: u16 = if w.clients[0].v5 { 128 } else { 0 };
+        for q in 0..3u8 {
+            if cfg.variant == 0 {
+                // every subset of the properties once (first publish), a few afterwards
+                let ks: Vec<u16> = if w.model.accepted.is_empty() && q == 1 {
+                    (0..=max_props).collect()
+                } else {
+                    vec![0, max_props.min(64)]
+                };
+                for k in ks {
+                    v.push((Act::Pub { c: p, t: 0, qos: q, retain: false, empty: false, props: k as u8 }, 0));
+                }
+            } else {
+                for k in [0u8, 2, 64, 65, 128] {
+                    v.push((Act::Pub { c: p, t: 0, qos: q, retain: q == 1, empty: false, props: k }, 0));
+                }
+            }
+        }
+    }
+    rel_actions(w, &[p], v);
+    for c in [2u8, 3u8] {
+        if live(w, c) && !active_sub(w, c, &cfg.filters[0]) {
+            for q in 0..3u8 {
+                v.push((Act::Sub { c, f: 0, qos: q }, 0));
+            }
+        }
+    }
+    ack_actions(w, &[2, 3], v);
+}
+
+/// C19 (router part): connect / disconnect / takeover histories against small limits
+fn enabled_c19(w: &RouterWorld, _cfg: &Cfg, v: &mut Vec<(Act, u8)>) {
+    for c in 0..4u8 {
+        if live(w, c) {
+            if !w.manual {
+                v.push((Act::DiscPkt { c }, 0));
+                v.push((Act::Drop { c }, 0));
+                if w.outbox.is_empty() {
+                    v.push((Act::Connect { c, clean: true, will: 0 }, 0));
+                }
+            }
+        } else if can_connect(w, c) {
+            v.push((Act::Connect { c, clean: c % 2 == 0, will: 0 }, 0));
+        }
+    }
 }
 
 /// C01: publishers c0,c1; subscribers c2,c3 (all connected by the prelude)
